@@ -647,11 +647,13 @@ def main():
         rc = 0
         names = [x for x in a[1:] if not x.startswith("--")]
         with cf.ThreadPoolExecutor(max_workers=jobs) as ex:
-            for r in ex.map(lambda n: run_harness(n, th, "thorough", use_memo="--no-memo" not in a), names):
+            futs = [ex.submit(run_harness, n, th, "thorough", "--no-memo" not in a) for n in names]
+            for fu in cf.as_completed(futs):
+                r = fu.result()
                 st = r.get("stats") or {}
                 print("%-44s %-9s %6.1fs steps=%s vccs=%s vars=%s solver=%ss" % (
                     r["harness"], r["status"], r.get("wall_s", 0), st.get("steps"), st.get("vccs"), st.get("variables"),
-                    st.get("solver_s")))
+                    st.get("solver_s")), flush=True)
                 for c in r.get("failed", [])[:12]:
                     print("    FAILED %s | %s:%s | %s" % (c["description"], c["file"], c["line"], c["function"][:80]))
                 for c in r.get("covers", []):
